@@ -11,6 +11,7 @@ import (
 	"path/filepath"
 	"sort"
 	"strings"
+	"syscall"
 
 	"pgregory.net/rapid"
 	specs "tags.cncf.io/container-device-interface/specs-go"
@@ -24,6 +25,8 @@ const (
 	BadSemantic = "bad-semantic" // parsable but invalid Spec under a Spec name
 	Empty       = "empty"        // empty file under a Spec name
 	NonSpec     = "nonspec"      // valid Spec content under a name that is not a Spec name
+	Fifo        = "fifo"         // named pipe under a name that is not a Spec name (ignored by the scan)
+	Socket      = "socket"       // unix socket under a name that is not a Spec name (ignored by the scan)
 	// faults that are not file content (C13)
 	DanglingLink = "dangling-link" // symlink under a Spec name whose target does not exist (the file vanished)
 	LinkLoop     = "link-loop"     // symlink under a Spec name pointing at itself
@@ -60,6 +63,14 @@ func writeEntry(path string, f *File) error {
 		_ = os.Remove(path)
 		return os.Symlink(f.Link, path)
 	}
+	switch f.Kind {
+	case Fifo:
+		_ = os.Remove(path)
+		return syscall.Mkfifo(path, 0o644)
+	case Socket:
+		_ = os.Remove(path)
+		return syscall.Mknod(path, syscall.S_IFSOCK|0o644, 0)
+	}
 	return os.WriteFile(path, f.Data, 0o644)
 }
 
@@ -90,6 +101,8 @@ var (
 	DevNames         = []string{"d0", "d1", "2d"}
 	specFileNames    = []string{"a.json", "b.yaml", "c.json", "d.yaml", ".h.json", "e.x.yaml"}
 	nonSpecFileNames = []string{"x.txt", "x.yml", "x.json.bak", "x", "spec.123.tmp", "y.JSON", "z.yaml~"}
+	// special files: names that sort before, between and after the Spec file names
+	specialFileNames = []string{"0-plugin.sock", "b.sock", "ctl.fifo", "zz.sock", ".s.fifo"}
 )
 
 func IsSpecName(n string) bool {
@@ -285,6 +298,13 @@ func Generate(t *rapid.T, root string, o Options) *Layout {
 				d.Files[name] = l.NewInvalidFile(t, label, d.Name, name)
 			case k == 8:
 				if o.NoIgnored {
+					continue
+				}
+				if rapid.IntRange(0, 2).Draw(t, label+"special") == 0 {
+					// a named pipe or a socket next to the Spec files (plugins keep such things there)
+					name := rapid.SampledFrom(specialFileNames).Draw(t, label+"name")
+					l.serial++
+					d.Files[name] = &File{Name: name, Kind: rapid.SampledFrom([]string{Fifo, Socket}).Draw(t, label+"specialKind"), Marker: fmt.Sprintf("%s/%s@%d", d.Name, name, l.serial)}
 					continue
 				}
 				name := rapid.SampledFrom(nonSpecFileNames).Draw(t, label+"name")
@@ -529,6 +549,8 @@ func FromDesc(root string, d Desc) *Layout {
 					f.Kind, f.Data = BadSemantic, []byte(`{"kind":"v1.com/gpu","devices":[{"name":"d0","containerEdits":{"env":["M=invalid"]}}]}`)
 				case "empty":
 					f.Kind, f.Data = Empty, []byte{}
+				case Fifo, Socket:
+					f.Kind = fd.Bad
 				default:
 					f.Kind = Valid
 					if !IsSpecName(fn) {
